@@ -471,9 +471,11 @@ func (s *Sim) DeadlockString() string { return strings.Join(s.Deadlock, "; ") }
 // clock and timers
 
 type timer struct {
-	at  int64
-	seq uint64
-	g   *G
+	at   int64
+	seq  uint64
+	g    *G
+	fn   func() // scheduler-context callback (time.After & co)
+	dead *bool
 }
 type timerHeap []timer
 
@@ -498,7 +500,25 @@ func (s *Sim) fireNextTimer() {
 	if t.at > s.now {
 		s.now = t.at
 	}
+	if t.fn != nil {
+		if t.dead == nil || !*t.dead {
+			t.fn()
+		}
+		return
+	}
 	s.ready(t.g)
+}
+
+// SpawnFromTimer starts fn as a new goroutine from scheduler context.
+func (s *Sim) SpawnFromTimer(site string, fn func()) { s.spawn(site, fn) }
+
+// AfterNS registers fn to run in scheduler context after d simulated ns; the
+// returned flag cancels it when set.
+func (s *Sim) AfterNS(d int64, fn func()) *bool {
+	dead := new(bool)
+	s.tseq++
+	heap.Push(&s.timers, timer{at: s.now + d, seq: s.tseq, fn: fn, dead: dead})
+	return dead
 }
 
 // SleepNS blocks the calling goroutine for d simulated nanoseconds. d==0 is
